@@ -6,6 +6,12 @@ here = os.path.dirname(os.path.dirname(os.path.abspath(__file__)))
 props = [json.loads(l) for l in open(os.path.join(here, "properties.jsonl"))]
 # property id -> (technique, level text, level note, design ref)
 claimed = json.load(open(os.path.join(here, "tools", "claims.json")))
+import subprocess
+explain = json.loads(subprocess.check_output([os.path.join(here, "bin", "orascheck"), "-explain"]))
+for pid, c in claimed.items():
+    assert pid in explain, pid + " is claimed but not implemented in the checker"
+    c.setdefault("text", "Static decision of structural necessary conditions of the property, on every path of the analysed code; it does not observe executions. " + explain[pid])
+    c.setdefault("note", "Trusted base: Go type checker and go/ssa (x/tools v0.29.0), documented contracts of the standard library and pinned dependencies, and the frozen instance tables of the checker (re-validated against the source on every run). Clauses that quantify over runtime values are not decided (listed in the text and in DESIGN.md §6).")
 checks, na = [], []
 for p in props:
     pid = p["id"]
